@@ -28,6 +28,9 @@ type Kind[K any] struct {
 	// Fan returns up to 256 keys that differ in exactly one byte position of
 	// their transformed form (they all hang under one inner node).
 	Fan func(r *rng.R) []K
+	// Fan2 returns a two-level fan-out: upper is a family under one node; lower is a second
+	// family hanging under the branch of upper[anchor] (so that two wide nodes are stacked).
+	Fan2 func(r *rng.R) (upper []K, anchor int, lower []K)
 	// Deepen returns a key that shares k's branch under the fan-out node and
 	// diverges further down (so that the child under that byte is an inner
 	// node when both are stored); nil when the kind cannot do that.
